@@ -52,7 +52,7 @@ type input struct {
 type violation struct {
 	Prop    string `json:"prop"`
 	Kind    string `json:"kind"`
-	Site    string `json:"site"`
+	Site    string `json:"site"`  // observed circumstances that can explain the violation, "|"-separated (signature of known findings)
 	Subject string `json:"subject,omitempty"`
 	Detail  string `json:"detail"`
 	Step    int    `json:"step"`
@@ -277,18 +277,24 @@ func (r *runner) subjectLogRows(ss subjSnap) int {
 	return n
 }
 
-// site: which observed circumstance explains a violation (used for the signature of known findings)
+// site: every observed circumstance that may explain a violation on the subject (used for the signature of known findings;
+// tools/props/subject.py accepts a violation as known only if one (circumstance, kind) pair belongs to a known class)
 func (r *runner) site(s string, ss subjSnap) string {
-	if r.sweepAbort != "" {
-		return "sweep-aborted:" + r.sweepAbort
+	var out []string
+	// an aborted sweep explains what it left behind: subjects that still have change-log rows
+	if r.sweepAbort != "" && r.subjectLogRows(ss) > 0 {
+		out = append(out, "sweep-aborted:"+r.sweepAbort)
 	}
 	if len(ss.DIDs) > 0 && !ss.hasDocs() {
-		return "did-rows-without-documents"
+		out = append(out, "did-rows-without-documents")
 	}
 	if r.opOnPending[s] {
-		return "op-started-on-pending-change"
+		out = append(out, "op-started-on-pending-change")
 	}
-	return "unexplained"
+	if len(out) == 0 {
+		return "unexplained"
+	}
+	return strings.Join(out, "|")
 }
 
 func (r *runner) call(op, s string) error {
@@ -459,7 +465,7 @@ func (r *runner) doOp(st step) (orderMiss bool) {
 				if !d.StoreFound || d.StoreHash != lh {
 					site := r.site(st.S, postSS)
 					if tr.deactAt {
-						site = "update-of-deactivated-subject"
+						site = "update-of-deactivated-subject|" + site
 					}
 					r.violate("success-but-unpublished", site, st.S, fmt.Sprintf("%s returned nil, did:web and the SQL did:nuts document have a new version, but the network still has another did:nuts document (found=%v)", st.Op, d.StoreFound))
 				}
@@ -477,7 +483,7 @@ func (r *runner) doOp(st step) (orderMiss bool) {
 		r.res.Checks++
 		var f *opTrack
 		for _, t := range r.tracks[:len(r.tracks)-1] {
-			if t.s == st.S && t.faulted {
+			if t.s == st.S && t.op == st.Op && t.faulted {
 				f = t
 			} else if f != nil && t.s == st.S && t.op == f.op && t.outcome == "ok" && len(t.newIDs) > 0 {
 				f = nil // an earlier repetition already succeeded
@@ -485,6 +491,9 @@ func (r *runner) doOp(st step) (orderMiss bool) {
 		}
 		// demanded unless the sweep decided that the operation had been committed (then it took effect)
 		demand := f != nil && f.resolved != "kept"
+		if st.Op != "create" && len(preSS.DIDs) == 0 {
+			demand = false // the subject itself was rolled back (its create was abandoned): nothing to update
+		}
 		if demand && tr.outcome != "ok" {
 			r.violate("retry-fails", r.site(st.S, preSS), st.S, fmt.Sprintf("%s was hit by a fault at step %d (%s, now %s); after the rollback sweep its repetition fails: %v", st.Op, f.step, f.outcome, orDefault(f.resolved, "still pending"), err))
 		}
@@ -596,7 +605,7 @@ func (r *runner) quiescent() {
 				} else if d.StoreHash != lh {
 					st := site
 					if d.StoreDeact {
-						st = "update-of-deactivated-subject"
+						st = "update-of-deactivated-subject|" + site
 					}
 					r.violate("unpublished-version-after-sweep", st, s, fmt.Sprintf("SQL did:nuts latest version %v differs from the document on the network", d.Versions))
 				}
@@ -656,7 +665,7 @@ func (r *runner) quiescent() {
 			switch {
 			case present == len(t.newIDs):
 				t.resolved = "kept"
-				if r.sweepAbort != "" && sn.Log > 0 {
+				if r.sweepAbort != "" && r.subjectLogRows(sn.Subjects[t.s]) > 0 {
 					t.resolved = "" // neither kept nor abandoned: still pending after the sweep
 				}
 			case present == 0:
